@@ -1,12 +1,13 @@
 """C11 — set: BitSet is exact bit-set algebra and reports changes truthfully."""
 import json
+import os
 import vlib
 
 META = {
     "property_id": "C11",
     "level": "proof",
     "coq_targets": ["BitSetJudge.vo"],
-    "technique": "Coq theorems over an executable N-model of bit_set.go (all widths, all argument lists, all op sequences) + in-kernel correspondence of model, abstract spec and real BitSet on generated op sequences and the 8-bit sweep",
+    "technique": "translator tie (bit_set.go regenerated to Gallina every run, proved equal to the model) + Coq theorems over an executable N-model of bit_set.go (all widths, all argument lists, all op sequences) + in-kernel correspondence of model, abstract spec and real BitSet on generated op sequences and the 8-bit sweep",
     "design_ref": "DESIGN.md §4 C11",
     "level_text": "Proof: BitSetProofs.v shows, for every N (hence every flag width incl. bit 63), every argument list and every operation sequence, that the model of set/bit_set.go computes exactly union / difference / intersection / subset tests and that Add/Remove return true iff the stored bits changed, and that a multi-argument call equals one-at-a-time calls (Props/C11.v, closed under the global context). The model is tied to the current source by running the real generic BitSet over uint8/16/32/64/uint on generated sequences and the exhaustive 8-bit (set, flag) sweep and judging every observation inside Coq against both the model and the abstract spec.",
     "level_note": "Trusted: Coq 8.16.1 kernel + vm_compute; the hand-written model's fidelity is checked (not proved) by the correspondence run; Go harness/generator; Go's uint64 bit operators. No axioms.",
@@ -16,6 +17,7 @@ TRUSTED = [
     "Coq 8.16.1 kernel and VM (vm_compute); no native_compute; no axioms (Print Assumptions: closed under the global context)",
     "hand-written model coq/theories/BitSetModel.v of set/bit_set.go, tied by correspondence only",
     "Go harness harness/cmd/c11 (generator, observation of bits/results), Go 1.23 toolchain",
+    "translator harness/cmd/xlate_bitset (go/parser -> Gallina for the subset bit_set.go uses); validated by the correspondence run",
 ]
 
 
@@ -45,9 +47,13 @@ def run(ctx):
                    {"kind": "build"}, failing_input=False)
         return
     quick = ctx.tier == "quick"
+    tie_ok, tie_detail = ctx.translator_tie(
+        "xlate_bitset", ["-src", os.path.join(ctx.copy_repo(), "set", "bit_set.go")], "BitSetGen", "Tie_C11")
+    ctx.log("translator tie:", "OK" if tie_ok else "BROKEN", "-", tie_detail.splitlines()[0])
+    widen = 1
     runs = [("corpus", ["-mode", "corpus"]),
-            ("random", ["-mode", "random", "-n", 600 if quick else 20000]),
-            ("sweep", ["-mode", "sweep", "-n", 12 if quick else 256])]
+            ("random", ["-mode", "random", "-n", (600 if quick else 20000) * widen]),
+            ("sweep", ["-mode", "sweep", "-n", 12 * widen if quick else 256])]
     terms, jsons, err = vlib.harness_cases(ctx, binp, runs)
     if err:
         ctx.report({"unchecked": "harness run", "detail": err}, {"kind": "harness"}, failing_input=False)
@@ -76,6 +82,25 @@ def run(ctx):
                                                    2: "observation differs from the Coq model"}[code],
                "replay_cmd": "./check C11 --replay <this file>"}
         ctx.report(rep, features(j), failing_input=(code == 1))
+    if not tie_ok and not ctx.violations:
+        # a broken tie with a clean correspondence run: widen the search for a failing input
+        t2, j2, err = vlib.harness_cases(ctx, binp, [("widen", ["-mode", "random", "-n", 2500, "-seed", ctx.seed + 7919]),
+                                                     ("widensweep", ["-mode", "sweep", "-n", 24, "-seed", ctx.seed + 104729])])
+        if not err:
+            sm = [(i, t) for i, t in enumerate(t2) if j2[i]["kind"] != "sweep8"]
+            bg = [(i, t) for i, t in enumerate(t2) if j2[i]["kind"] == "sweep8"]
+            for group, shard, tag in ((sm, 500, "wseq"), (bg, 4, "wsweep")):
+                b, _, err = ctx.judge_cases(header, "bs_case", "bs_judge", [t for _, t in group], shard=shard, tag=tag)
+                for k, code in (b or []):
+                    j = minimise(ctx, header, j2[group[k][0]]) if ctx.nreplay < 5 else j2[group[k][0]]
+                    ctx.report({"case": shrink_view(j), "found_by": "widened search after the translator tie broke",
+                                "verdict": "observation violates the bit-set specification" if code == 1 else "observation differs from the Coq model"},
+                               features(j), failing_input=(code == 1))
+            jsons += j2
+    if not tie_ok and not ctx.violations:
+        ctx.report({"unchecked": "translator tie coq/ties/Tie_C11.v against BitSetGen.v regenerated from set/bit_set.go",
+                    "detail": tie_detail, "search": "widened correspondence run (%d cases) found no failing input" % len(jsons)},
+                   {"kind": "tie"}, failing_input=False)
     triples = 0
     if not quick:
         triples = triple_sweep(ctx, binp, header)
